@@ -90,5 +90,14 @@ pub fn run(ctx: &'static Ctx) {
                 else if key != bip32::derive(&curve, &seed, &want_path).map(|x| x.k.to_be()) { ctx.violation(format!("{P}:for_index:std-index:wrong-key"), "default path derives a different key than m/44'/60'/0'/0/i", replay) } }
         }
     });
+    let bad_idx: Vec<usize> = vec![0x8000_0000, 0x8000_0001, 0xffff_ffff, 0x1_0000_0000, usize::MAX];
+    ctx.sweep("for-index-out-of-range", "Path::for_index(i) for i in {2^31, 2^31+1, 2^32-1, 2^32, 2^64-1}: no default path exists, an error is required", bad_idx.len() as u64, |k| {
+        let i = bad_idx[k as usize]; let replay = json!({"sweep": "for-index-out-of-range", "index": k, "entry": "hdk::Path::for_index", "account_index": i.to_string()});
+        match guard(|| hdk::Path::for_index(i).map(|p| p.to_string())) {
+            Err(p) => { ctx.eval("for_index:ge-2^31:panic"); ctx.panic_violation(format!("{P}:for_index:ge-2^31:panic@{}", panic_site(&p)), format!("for_index({i}) panics: {p}"), replay) }
+            Ok(Err(_)) => ctx.eval("for_index:ge-2^31:error"),
+            Ok(Ok(shown)) => { ctx.eval("for_index:ge-2^31:path"); ctx.violation(format!("{P}:for_index:ge-2^31:accepted"), format!("account index {i} >= 2^31 yields the path '{shown}'"), replay) }
+        }
+    });
     ctx.guard_check("accepting and rejecting states seen", ctx.classes_matching(|c| c.ends_with(":accepted")) > 0 && ctx.classes_matching(|c| c.ends_with(":rejected")) > 0, "both outcomes occurred");
 }
